@@ -84,10 +84,10 @@ func newNode() *Node {
 }
 
 func (n *Node) update(topic format.Topic, f func([]byte) []byte) {
-	topic, token := topic.Next()
-	if token == "" {
+	if topic == nil {
 		n.Data = f(n.Data)
 	} else {
+		topic, token := topic.Next()
 		if n.Children == nil {
 			n.Children = make(map[string]*Node)
 		}
@@ -113,11 +113,11 @@ func (this *Node) iterate(iterator NodeIterator) {
 	}
 }
 func (this *Node) walk(topic format.Topic, iterator NodeIterator) {
-	topic, token := topic.Next()
-	if token == "" {
+	if topic == nil {
 		iterator(this.Data)
 		return
 	}
+	topic, token := topic.Next()
 
 	for k, n := range this.Children {
 		// If the key is "#", then these subscribers are added to the result set
